@@ -37,7 +37,7 @@ pub fn styles(rng: &mut Rng) -> Vec<Style> {
 }
 
 pub fn run(ctx: &mut Ctx) {
-    ctx.rule = "random abstract recipes (metadata, sections, steps, text paragraphs, ingredients/cookware/timers with numeric/fraction/range/text values, units, locks, modifiers, aliases, notes, references, intermediate references; valid by construction) x 4 spelling styles (plain; spacing; comments; spacing+comments+line wrapping+CRLF+unit without %), canonical parser for canonical recipes and extended parser for extended ones; oracle: parsed recipe == intended recipe computed from the abstract recipe, no diagnostics except the >> deprecation; every spelling also goes through the model. distinct = distinct request lines".into();
+    ctx.rule = "random abstract recipes (metadata, sections, steps, text paragraphs, ingredients/cookware/timers with numeric/fraction/range/text values, units, locks, modifiers, aliases, notes, references, intermediate references, components-mode blocks, text-mode / steps-mode / duplicate-reference regions between mode switches; valid by construction) x 4 spelling styles (plain; spacing; comments; spacing+comments+line wrapping+CRLF+unit without %), canonical parser for canonical recipes and extended parser for extended ones; oracle: parsed recipe == intended recipe computed from the abstract recipe, no diagnostics except the >> deprecation; every spelling also goes through the model. distinct = distinct request lines".into();
     let mut rng = Rng::new(ctx.seed ^ 0xC01);
     let n = if ctx.thorough { 60_000 } else { 1_500 };
     for i in 0..n {
@@ -45,6 +45,13 @@ pub fn run(ctx: &mut Ctx) {
         let r = wf::generate(&mut rng, extended);
         ctx.count(if extended { "recipe:extended" } else { "recipe:canonical" });
         if r.blocks.iter().any(|b| matches!(b, wf::Block::Components(_))) { ctx.count("recipe:with-components-mode-block"); }
+        for b in &r.blocks {
+            if let wf::Block::Switch(k, v) = b {
+                if v == "text" { ctx.count("recipe:text-mode-region"); }
+                if v == "steps" { ctx.count("recipe:steps-mode-region"); }
+                if k == "duplicate" && v.starts_with("ref") { ctx.count("recipe:duplicate-reference-region"); }
+            }
+        }
         for (k, st) in styles(&mut rng).iter().enumerate() {
             let text = wf::spell(&r, st);
             check_spelling(ctx, &r, &text, &format!("style#{k}"));
